@@ -81,29 +81,29 @@ type zzCipher struct {
 	pos int
 }
 
-//vrt:replace github.com/cenkalti/rain/v2/internal/mse.keyPair github.com/cenkalti/rain/v2/internal/mse.zzKeyPair ZZTwoParty ZZTwoPartyWrongKey
+//vrt:replace github.com/cenkalti/rain/v2/internal/mse.keyPair github.com/cenkalti/rain/v2/internal/mse.zzKeyPair ZZTwoParty ZZTwoPartyWrongKey ZZAcceptPolicy
 func zzKeyPair() (*big.Int, *big.Int, error) { return new(big.Int), new(big.Int), nil }
 
-//vrt:replace github.com/cenkalti/rain/v2/internal/mse.bytesWithPad github.com/cenkalti/rain/v2/internal/mse.zzBytesWithPad ZZTwoParty ZZTwoPartyWrongKey
+//vrt:replace github.com/cenkalti/rain/v2/internal/mse.bytesWithPad github.com/cenkalti/rain/v2/internal/mse.zzBytesWithPad ZZTwoParty ZZTwoPartyWrongKey ZZAcceptPolicy
 func zzBytesWithPad(key *big.Int) []byte { return make([]byte, 96) }
 
-//vrt:replace (*math/big.Int).SetBytes github.com/cenkalti/rain/v2/internal/mse.zzSetBytes ZZTwoParty ZZTwoPartyWrongKey
+//vrt:replace (*math/big.Int).SetBytes github.com/cenkalti/rain/v2/internal/mse.zzSetBytes ZZTwoParty ZZTwoPartyWrongKey ZZAcceptPolicy
 func zzSetBytes(z *big.Int, buf []byte) *big.Int { return z }
 
-//vrt:replace (*math/big.Int).Exp github.com/cenkalti/rain/v2/internal/mse.zzExp ZZTwoParty ZZTwoPartyWrongKey
+//vrt:replace (*math/big.Int).Exp github.com/cenkalti/rain/v2/internal/mse.zzExp ZZTwoParty ZZTwoPartyWrongKey ZZAcceptPolicy
 func zzExp(z, x, y, m *big.Int) *big.Int { return z }
 
-//vrt:replace github.com/cenkalti/rain/v2/internal/mse.hashInt github.com/cenkalti/rain/v2/internal/mse.zzHashInt ZZTwoParty ZZTwoPartyWrongKey
+//vrt:replace github.com/cenkalti/rain/v2/internal/mse.hashInt github.com/cenkalti/rain/v2/internal/mse.zzHashInt ZZTwoParty ZZTwoPartyWrongKey ZZAcceptPolicy
 func zzHashInt(prefix string, i *big.Int) []byte { return append([]byte(nil), zzReq[prefix]...) }
 
-//vrt:replace github.com/cenkalti/rain/v2/internal/mse.HashSKey github.com/cenkalti/rain/v2/internal/mse.zzHashSKey ZZTwoParty ZZTwoPartyWrongKey
+//vrt:replace github.com/cenkalti/rain/v2/internal/mse.HashSKey github.com/cenkalti/rain/v2/internal/mse.zzHashSKey ZZTwoParty ZZTwoPartyWrongKey ZZAcceptPolicy
 func zzHashSKey(key []byte) [20]byte {
 	var sum [20]byte
 	copy(sum[:], key)
 	return sum
 }
 
-//vrt:replace github.com/cenkalti/rain/v2/internal/mse.rc4Key github.com/cenkalti/rain/v2/internal/mse.zzRC4Key ZZTwoParty ZZTwoPartyWrongKey
+//vrt:replace github.com/cenkalti/rain/v2/internal/mse.rc4Key github.com/cenkalti/rain/v2/internal/mse.zzRC4Key ZZTwoParty ZZTwoPartyWrongKey ZZAcceptPolicy
 func zzRC4Key(prefix string, S *big.Int, sKey []byte) []byte {
 	if prefix == "keyA" {
 		return []byte{1}
@@ -111,14 +111,14 @@ func zzRC4Key(prefix string, S *big.Int, sKey []byte) []byte {
 	return []byte{2}
 }
 
-//vrt:replace crypto/rc4.NewCipher github.com/cenkalti/rain/v2/internal/mse.zzNewCipher ZZTwoParty ZZTwoPartyWrongKey
+//vrt:replace crypto/rc4.NewCipher github.com/cenkalti/rain/v2/internal/mse.zzNewCipher ZZTwoParty ZZTwoPartyWrongKey ZZAcceptPolicy
 func zzNewCipher(key []byte) (*rc4.Cipher, error) {
 	c := &rc4.Cipher{}
 	zzCiphers = append(zzCiphers, &zzCipher{c: c, id: int(key[0])})
 	return c, nil
 }
 
-//vrt:replace (*crypto/rc4.Cipher).XORKeyStream github.com/cenkalti/rain/v2/internal/mse.zzXORKeyStream ZZTwoParty ZZTwoPartyWrongKey
+//vrt:replace (*crypto/rc4.Cipher).XORKeyStream github.com/cenkalti/rain/v2/internal/mse.zzXORKeyStream ZZTwoParty ZZTwoPartyWrongKey ZZAcceptPolicy
 func zzXORKeyStream(c *rc4.Cipher, dst, src []byte) {
 	for _, zc := range zzCiphers {
 		if zc.c != c {
@@ -140,7 +140,7 @@ func zzXORKeyStream(c *rc4.Cipher, dst, src []byte) {
 
 // binary.Read on the (blocking) stream, for the three types the handshake reads.
 //
-//vrt:replace encoding/binary.Read github.com/cenkalti/rain/v2/internal/mse.zzBinaryRead ZZTwoParty ZZTwoPartyWrongKey
+//vrt:replace encoding/binary.Read github.com/cenkalti/rain/v2/internal/mse.zzBinaryRead ZZTwoParty ZZTwoPartyWrongKey ZZAcceptPolicy
 func zzBinaryRead(r io.Reader, order binary.ByteOrder, data any) error {
 	switch p := data.(type) {
 	case *CryptoMethod:
@@ -161,25 +161,30 @@ func zzBinaryRead(r io.Reader, order binary.ByteOrder, data any) error {
 	panic("zz: binary.Read of an unexpected type")
 }
 
-//vrt:replace github.com/cenkalti/rain/v2/internal/mse.padZero github.com/cenkalti/rain/v2/internal/mse.zzPadZero ZZTwoParty ZZTwoPartyWrongKey
+//vrt:replace github.com/cenkalti/rain/v2/internal/mse.padZero github.com/cenkalti/rain/v2/internal/mse.zzPadZero ZZTwoParty ZZTwoPartyWrongKey ZZAcceptPolicy
 func zzPadZero() ([]byte, error) { return make([]byte, vrt.Choice("pad_length", 2)), nil }
 
-//vrt:replace github.com/cenkalti/rain/v2/internal/mse.padRandom github.com/cenkalti/rain/v2/internal/mse.zzPadRandom ZZTwoParty ZZTwoPartyWrongKey
+//vrt:replace github.com/cenkalti/rain/v2/internal/mse.padRandom github.com/cenkalti/rain/v2/internal/mse.zzPadRandom ZZTwoParty ZZTwoPartyWrongKey ZZAcceptPolicy
 func zzPadRandom() ([]byte, error) { return zzPadZero() }
 
-func zzTwoParty(sameKey bool) {
+// ZZModelInit sets up the crypto model (also used by the btconn harness).
+func ZZModelInit() {
 	zzReq = map[string][]byte{"req1": vrt.Bytes("hash_req1_S", 20), "req3": vrt.Bytes("hash_req3_S", 20)}
 	// keystreams: fixed, non-zero, non-repeating patterns (the protocol logic does not depend on
 	// their values; what is excluded is the 2^-64 coincidence of the encrypted verification
 	// constant occurring inside the padding). Pads are zero bytes; the req1 hash does not start with 0.
-	zzStreams[1] = make([]byte, 200)
-	zzStreams[2] = make([]byte, 200)
+	zzStreams[1] = make([]byte, 400)
+	zzStreams[2] = make([]byte, 400)
 	for i := range zzStreams[1] {
 		zzStreams[1][i] = byte(i%250 + 1)
 		zzStreams[2][i] = byte((i*7)%250 + 3)
 	}
 	vrt.Assume(zzReq["req1"][0] != 0)
 	zzCiphers = nil
+}
+
+func zzTwoParty(sameKey bool) {
+	ZZModelInit()
 	keyA := vrt.Bytes("skey_initiator", 20)
 	keyB := keyA
 	if !sameKey {
